@@ -34,6 +34,13 @@ impl<K, V> HashMap<K, V> {
         ensures it.rem().no_duplicates(), it.rem().to_set() == self@.dom(), it.map() == self@
     { unimplemented!() }
 
+    #[verifier::external_body]
+    pub fn insert(&mut self, k: K, v: V) -> (r: Option<V>)
+        ensures
+            final(self)@ == old(self)@.insert(k, v),
+            r == (if old(self)@.contains_key(k) { Some(old(self)@[k]) } else { None::<V> }),
+    { unimplemented!() }
+
     /// `map[key]` (std: panics when the key is absent)
     #[verifier::external_body]
     pub fn index<'a>(&'a self, k: &K) -> (r: &'a V)
